@@ -91,3 +91,62 @@ def check(rep, fn, rule="R-CARRY"):
                 rep.violated(rule, fn, inst, desc, "the carry computed at line %s is overwritten at line %s before being used "
                              "(lost when both partial additions carry)" % (st["ln"], bad.get("ln")), st["ln"])
     return n
+
+
+def _terms(e):
+    """addends of a +-chain (casts stripped)"""
+    e = core.strip_casts(e)
+    if e is not None and e.get("k") == "bin" and e["op"] == "+":
+        return _terms(e["x"]) + _terms(e["y"])
+    return [e]
+
+
+def _last_def(fn, pos, var):
+    """the assignment `var = E` / `var += E` that reaches position pos inside the same block, or the unique one in a
+    dominating block; None when not unique"""
+    bid, idx = pos
+    elems = fn.blocks[bid].elems
+    for i in range(idx - 1, -1, -1):
+        for n, _ in walk(elems[i]):
+            if n.get("k") == "bin" and n["op"] in ("=", "+=") and key(core.strip_casts(n["x"])) == key(var):
+                return n
+    cands = []
+    for p2, r2, n, _ in fn.nodes():
+        if n.get("k") == "bin" and n["op"] in ("=", "+=") and key(core.strip_casts(n["x"])) == key(var):
+            cands.append((p2, n))
+    cands = [c for c in cands if c[0][0] != bid and fn.dominates(c[0][0], bid)]
+    return cands[0][1] if len(cands) == 1 else None
+
+
+def check_addends(rep, fn, rule="R-CARRY"):
+    """`carry = (sum < x)` detects the carry of a *two-term* addition sum = x + y only.  With a third addend (an incoming
+    carry folded into the same statement) x + MAX + 1 wraps to exactly x and the carry is missed.  For every unsigned
+    wrap test `s < x` / `x > s` whose s was just assigned a +-chain containing x: the chain has two terms."""
+    n = 0
+    for pos, root, c, ps in fn.nodes():
+        if not (c.get("k") == "bin" and c["op"] in ("<", ">")):
+            continue
+        a, b = core.strip_casts(c["x"]), core.strip_casts(c["y"])
+        s_, x_ = (a, b) if c["op"] == "<" else (b, a)
+        if s_.get("k") not in ("ref", "sub", "mem", "un") or x_.get("k") not in ("ref", "sub", "mem", "un"):
+            continue
+        if "t" in s_:
+            t = fn.unit.type(s_["t"])
+            if t.get("k") != "int" or t.get("sg"):
+                continue
+        d = _last_def(fn, pos, s_)
+        if d is None:
+            continue
+        terms = _terms(d["y"]) + ([s_] if d["op"] == "+=" else [])
+        keys = [key(t_) for t_ in terms if t_ is not None]
+        if key(x_) not in keys or len(terms) < 2:
+            continue
+        n += 1
+        inst = "addends:%s<%s#%d" % (key(s_)[:20], key(x_)[:20], n)
+        desc = "%s: the wrap test %s %s %s follows an addition of exactly two terms" % (fn.name, key(c["x"])[:30], c["op"], key(c["y"])[:30])
+        if len(terms) == 2:
+            rep.proved(rule, fn, inst, desc, "%s = %s" % (key(s_), " + ".join(keys)), c.get("ln"))
+        else:
+            rep.violated(rule, fn, inst, desc, "%s = %s has %d addends: when the other addends sum to 2^W the result equals %s and the "
+                         "carry is not seen" % (key(s_), " + ".join(keys), len(terms), key(x_)), c.get("ln"))
+    return n
